@@ -159,6 +159,22 @@ def run(chk):
                     chk.add(Finding("R03-loop", "R03-loop::" + key, "loop at %s can cycle through its head without consuming input: no progress operation (iterator next, token consumption, monotone counter) on some cycle" % b.where(b.blocks[h]["t"].get("ln")), b.where(b.blocks[h]["t"].get("ln"))))
     chk.rule("R03-loop", "natural loops on the load path with a progress operation on every cycle through the head (audited: %d)" % len(AUDITED_LOOPS), nl, floor=100)
 
+    # premises of the progress table: a callee that is counted as progress because "it consumes the token that selected it or
+    # fails" must keep the failure exit for the inputs it does not consume
+    PREMISES = [
+        ("ifdata::parse_unknown_taggedstruct", "InvalidBegin", "parse_unknown_ifdata calls it for every /begin token; for a /begin that does not start a tagged item it consumes nothing, so it must end in ParserError::InvalidBegin, otherwise the caller's loop spins on the same token (hang, unbounded memory)"),
+    ]
+    for fn, variant, why in PREMISES:
+        fb = prog.bodies.get(fn)
+        built = set()
+        if fb is not None:
+            for bi, si, st in fb.stmts():
+                if st["k"] == "assign" and st["rv"]["r"] == "agg" and st["rv"].get("kind") == "adt" and st["rv"]["adt"].endswith("ParserError"):
+                    built.add(st["rv"]["v"])
+        nl += 1
+        if fb is None or variant not in built:
+            chk.add(Finding("R03-loop", "R03-loop::premise::%s::%s" % (fn, variant), "%s no longer ends in ParserError::%s: %s" % (fn, variant, why), fb.where() if fb else fn))
+    chk.rule("R03-premise", "failure exits that the progress table relies on", len(PREMISES), floor=1)
     # R03-noinclude: tokenize() never lets an Include token through (supports the audited Include arm)
     b = prog.bodies.get("tokenizer::tokenize")
     n = 0
